@@ -210,6 +210,8 @@ class Builder(object):
                 v = Var(0, a.dims, a.tracked, a.pos, a.exact, a.mag)
                 v.is_op = a.is_op
                 v.alias = True
+                if getattr(a, "fetched", False):
+                    v.fetched = True
                 if hasattr(a, "node"):
                     v.node = a.node
                 self.emit(("op", ("sum", 0), [a.idx]), v)
@@ -225,7 +227,10 @@ class Builder(object):
             if not opts:
                 return None
             d = rng.choice(opts)
-            return self.result(("reshape", d), [a], d, a.pos, a.exact, a.mag)
+            v = self.result(("reshape", d), [a], d, a.pos, a.exact, a.mag)
+            if getattr(a, "fetched", False):
+                v.fetched = True      # a view of a fetched gradient shares the gradient's buffer
+            return v
         raise ValueError(kind)
 
     def op_matmul(self):
